@@ -76,13 +76,17 @@ def run(chk: Check):
         v0 = 0.5 * sum(c @ c for c in ham["chol"])
         errs = []
         Es = 0.3
+        hd_carry = None
         for dt in DTS:
             P = propagation.propagator_restricted if restricted else propagation.propagator_unrestricted
             nodes, om = manybody.gauss_hermite(nchol, 7 if nchol <= 2 else 5)
             K = len(om)
             prop = P(dt=dt, n_walkers=K)
-            hd = hm.build_measurement_intermediates(dict(hd0), trial, wd)
+            # every other instance re-prepares the SAME dictionary for the next time step, as user code does
+            # (ham_data = ham.build_..._intermediates(ham_data, ...)): nothing prepared for one dt may survive into the next
+            hd = hm.build_measurement_intermediates(hd_carry if (ci % 3 != 0 and hd_carry is not None) else dict(hd0), trial, wd)
             hd = hm.build_propagation_intermediates(hd, prop, trial, wd)
+            hd_carry = hd
             if dt == DTS[0]:
                 ok_mf = np.allclose(np.asarray(hd["mf_shifts"]), 1j * l, atol=1e-12)
                 ok_h0 = abs(complex(hd["h0_prop"]) - (-ham["h0"] + 0.5 * np.sum(l ** 2))) < 1e-12
